@@ -39,7 +39,7 @@ _add("SmVerif.Tie.Lookup", "RsTypes", [
 _add("SmVerif.Tie.Paths", "RsUtils", [
     "SmVerif.Tie.tie_splitAny", "SmVerif.Tie.tie_join", "SmVerif.Tie.tie_comps", "SmVerif.Tie.tie_sort_two",
     "SmVerif.Tie.tie_common_prefix_two", "SmVerif.Tie.tie_make_relative_path", "SmVerif.Tie.make_relative_path_total",
-    "SmVerif.Tie.tie_c19_resolves", "SmVerif.Tie.tie_c19_dot_iff"])
+    "SmVerif.Tie.tie_c19_resolves", "SmVerif.Tie.tie_c19_dot_iff", "SmVerif.Tie.tie_c19_shape", "SmVerif.Tie.tie_c19_nonempty", "SmVerif.Tie.tie_c19_descend"])
 _add("SmVerif.Tie.Hermes", "RsHermes", [
     "SmVerif.Tie.tie_partition_point", "SmVerif.Tie.tie_partition_point_map", "SmVerif.Tie.tie_get_scope_for_token",
     "SmVerif.Tie.get_scope_for_token_total", "SmVerif.Tie.tie_get_scope_for_token_iter"])
